@@ -119,6 +119,106 @@ Section LinCodeListFacts.
     rewrite Forall_forall in Hi. specialize (Hi k Hk). lia.
   Qed.
 
+  (* ---- the verifier decides exactly the published relation (C10): lengths, every queried position's path and inner
+     products, and the value ---- *)
+  Theorem l_check_e_accepts_iff enc wf n_cols cext a b value pf r idx :
+    l_check_e enc wf n_cols cext a b value pf r idx = Ok true <->
+    length (lf_v pf) = n_cols /\
+    (exists out,
+        (if wf then match lf_wf pf with Some w => length w = n_cols /\ out = Some w | None => False end else out = None) /\
+        path_loop cext (lf_cols pf) idx (lf_paths pf) = Ok tt /\
+        ip_loop (match out with Some wfv => [(r, enc wfv); (b, enc (lf_v pf))] | None => [(b, enc (lf_v pf))] end)
+                (lf_cols pf) idx = Ok tt) /\
+    ip (lf_v pf) a = value.
+  Proof.
+    unfold l_check_e. split.
+    - intros H.
+      destruct (Nat.eqb_spec (length (lf_v pf)) n_cols) as [Lv|]; cbn [negb] in H; [|discriminate].
+      split; [exact Lv|].
+      destruct wf.
+      + destruct (lf_wf pf) as [w|]; cbn [bind] in H; [|discriminate].
+        destruct (Nat.eqb_spec (length w) n_cols) as [Lw|]; cbn [negb bind] in H; [|discriminate].
+        destruct (path_loop cext (lf_cols pf) idx (lf_paths pf)) as [[]| |]; cbn [bind] in H; try discriminate.
+        match type of H with context [ip_loop ?V _ _] => destruct (ip_loop V (lf_cols pf) idx) as [[]| |] eqn:Ei end; cbn [bind] in H; try discriminate.
+        injection H as H. apply FL_eqb in H. split; [|exact H].
+        exists (Some w). repeat split; try reflexivity; assumption.
+      + cbn [bind] in H.
+        destruct (path_loop cext (lf_cols pf) idx (lf_paths pf)) as [[]| |]; cbn [bind] in H; try discriminate.
+        match type of H with context [ip_loop ?V _ _] => destruct (ip_loop V (lf_cols pf) idx) as [[]| |] eqn:Ei end; cbn [bind] in H; try discriminate.
+        injection H as H. apply FL_eqb in H. split; [|exact H].
+        exists None. repeat split; try reflexivity; assumption.
+    - intros (Lv & (out & Hw & Hp & Hi) & Hv).
+      rewrite Lv, Nat.eqb_refl. cbn [negb].
+      destruct wf.
+      + destruct (lf_wf pf) as [w|]; [|contradiction]. destruct Hw as [Lw ->].
+        rewrite Lw, Nat.eqb_refl. cbn [negb bind]. rewrite Hp. cbn [bind]. rewrite Hi. cbn [bind].
+        f_equal. apply FL_eqb. exact Hv.
+      + subst out. cbn [bind]. rewrite Hp. cbn [bind]. rewrite Hi. cbn [bind]. f_equal. apply FL_eqb. exact Hv.
+  Qed.
+
+  (* ---- what both sides take from the transcript (C11): one field squeeze when well-formedness is on, then t byte squeezes,
+     whatever the proof and the claimed value are ---- *)
+  Lemma pop_bytes_spec : forall t tape bs rest, pop_bytes t tape = Ok (bs, rest) -> tape = map SqB bs ++ rest.
+  Proof.
+    induction t as [|t IH]; intros tape bs rest H; cbn [pop_bytes] in H.
+    - injection H as <- <-. reflexivity.
+    - destruct tape as [|[l|b] tape']; try discriminate.
+      destruct (pop_bytes t tape') as [[bs1 r1]| |] eqn:E; cbn [bind fst snd] in H; try discriminate.
+      injection H as <- <-. cbn [map app]. f_equal. exact (IH _ _ _ E).
+  Qed.
+  Definition consumed (wf : bool) (r : list F) (bs : list (list N)) : list sq_ev :=
+    (if wf then [SqF r] else []) ++ map SqB bs.
+
+  Theorem lc_check_one_consumes wf cm pt value pf tape res rest t :
+    cm_t cm = Ok t -> lc_check_one tensor wf cm pt value pf tape = Ok (res, rest) ->
+    exists r bs, tape = consumed wf r bs ++ rest /\ length bs = t.
+  Proof.
+    intros Ht H. unfold lc_check_one in H. rewrite Ht in H. cbn [bind] in H.
+    destruct (negb (length (lf_v pf) =? cm_n_cols cm)%nat); [discriminate|].
+    unfold consumed. destruct wf.
+    - destruct (lf_wf pf) as [w|]; cbn [bind] in H; [|discriminate].
+      destruct (negb (length w =? cm_n_cols cm)%nat); cbn [bind] in H; [discriminate|].
+      unfold pop_field in H. destruct tape as [|[r|b] tape']; cbn [bind fst snd] in H; try discriminate.
+      unfold pop_indices in H.
+      destruct (pop_bytes t tape') as [[bs r1]| |] eqn:Ep; cbn [bind fst snd] in H; try discriminate.
+      destruct (indices_of (N.of_nat (cm_n_ext cm)) bs) as [idx| |]; cbn [bind fst snd] in H; try discriminate.
+      match type of H with context [bind ?X _] => destruct X as [bb| |] end; cbn [bind] in H; try discriminate.
+      injection H as _ <-. exists r, bs. split; [|exact (pop_bytes_length _ _ _ _ Ep)].
+      cbn [app]. f_equal. exact (pop_bytes_spec _ _ _ _ Ep).
+    - cbn [bind fst snd] in H. unfold pop_indices in H.
+      destruct (pop_bytes t tape) as [[bs r1]| |] eqn:Ep; cbn [bind fst snd] in H; try discriminate.
+      destruct (indices_of (N.of_nat (cm_n_ext cm)) bs) as [idx| |]; cbn [bind fst snd] in H; try discriminate.
+      match type of H with context [bind ?X _] => destruct X as [bb| |] end; cbn [bind] in H; try discriminate.
+      injection H as _ <-. exists [], bs. split; [|exact (pop_bytes_length _ _ _ _ Ep)].
+      cbn [app]. exact (pop_bytes_spec _ _ _ _ Ep).
+  Qed.
+
+  Theorem lc_open_one_consumes wf cm rows pt tape pf rest t :
+    cm_t cm = Ok t -> lc_open_one tensor wf cm rows pt tape = Ok (pf, rest) ->
+    exists r bs, tape = consumed wf r bs ++ rest /\ length bs = t.
+  Proof.
+    intros Ht H. unfold lc_open_one in H. rewrite Ht in H.
+    destruct (tensor pt (cm_n_cols cm) (cm_n_rows cm)) as [[a b]| |]; cbn [bind fst snd] in H; try discriminate.
+    unfold consumed. destruct wf.
+    - unfold pop_field in H. destruct tape as [|[r|b0] tape']; cbn [bind fst snd] in H; try discriminate.
+      destruct (row_mul rows (cm_n_cols cm) r) as [wv| |]; cbn [bind] in H; try discriminate.
+      destruct (row_mul rows (cm_n_cols cm) b) as [bv| |]; cbn [bind] in H; try discriminate.
+      unfold pop_indices in H.
+      destruct (pop_bytes t tape') as [[bs r1]| |] eqn:Ep; cbn [bind fst snd] in H; try discriminate.
+      destruct (indices_of (N.of_nat (cm_n_ext cm)) bs) as [idx| |]; cbn [bind fst snd] in H; try discriminate.
+      match type of H with context [bind ?X _] => destruct X as [pf0| |] end; cbn [bind] in H; try discriminate.
+      injection H as _ <-. exists r, bs. split; [|exact (pop_bytes_length _ _ _ _ Ep)].
+      cbn [app]. f_equal. exact (pop_bytes_spec _ _ _ _ Ep).
+    - cbn [bind fst snd] in H.
+      destruct (row_mul rows (cm_n_cols cm) b) as [bv| |]; cbn [bind] in H; try discriminate.
+      unfold pop_indices in H.
+      destruct (pop_bytes t tape) as [[bs r1]| |] eqn:Ep; cbn [bind fst snd] in H; try discriminate.
+      destruct (indices_of (N.of_nat (cm_n_ext cm)) bs) as [idx| |]; cbn [bind fst snd] in H; try discriminate.
+      match type of H with context [bind ?X _] => destruct X as [pf0| |] end; cbn [bind] in H; try discriminate.
+      injection H as _ <-. exists [], bs. split; [|exact (pop_bytes_length _ _ _ _ Ep)].
+      cbn [app]. exact (pop_bytes_spec _ _ _ _ Ep).
+  Qed.
+
   (* a verdict (accept or reject) is only given on a proof that carries at least t columns and t paths *)
   Lemma l_check_e_shape enc wf n_cols cext a b value pf r idx res :
     l_check_e enc wf n_cols cext a b value pf r idx = Ok res ->
